@@ -18,6 +18,14 @@ CheckGen(e) ==
        qc |-> G("qc") /\ Len(e.qc) = e.k,
        prop |-> G("prop") /\ Len(e.prop) = e.k, prop_bits |-> G("prop_bits"), prop_shrunk |-> G("prop_shrunk") ]
 
+(* the same for the inherent methods of the rand-0.8 integration, which exist only in a build without the feature rand-09  *)
+(* (observed through a second crate built with the feature `rand` alone); randomize overwrites whatever the value was       *)
+CheckGen08(e) ==
+  LET n == e.bits
+      G(f) == Has(e, f) /\ AllCanonical(e[f], n) /\ Len(e[f]) = e.k
+  IN [ r8o_with |-> G("r8o_with"), r8o_rize_max |-> G("r8o_rize_max"), r8o_rize_zero |-> G("r8o_rize_zero"),
+       r8o_gen |-> G("r8o_gen"), r8o_thread |-> G("r8o_thread"), r8o_rize_thread |-> G("r8o_rize_thread") ]
+
 WellFormed(bits, limbs) == limbs = (bits + 63) \div 64
 
 (* A constructor / constant of Uint<bits, limbs>, compiled as a one-line   *)
@@ -35,6 +43,7 @@ CheckPodProbe(e) ==
 
 CheckCanon(e) ==
   CASE e.op = "gen" -> CheckGen(e)
+    [] e.op = "gen08" -> CheckGen08(e)
     [] e.op = "ctor_probe" -> CheckCtorProbe(e)
     [] e.op = "pod_probe" -> CheckPodProbe(e)
     [] OTHER -> [unknown_op |-> FALSE]
